@@ -3,7 +3,7 @@ CONSTANTS
   Vars = {"x"}
   Flags = {"none", "inc"}
   OpenKinds = {"rule", "if", "for", "content"}
-  BoundKinds = {"each"}
+  BoundKinds = {"each", "lmixind", "lfunctiond"}
   MaxLen = 7
   MaxDepth = 3
   CheckDev = {}
